@@ -1503,6 +1503,7 @@ func (r *c17Run) lists() []*c17List {
 
 	// --- data ---
 	iris := r.iriArgs()
+	hashIris := r.hashQueryArgs(iris)
 	add(&c17List{name: "AttestationsByAttestor", deps: gData, paged: true, args: addrs,
 		expect: func(a string) ([]string, bool) {
 			b, ok := validAddr(a)
@@ -1558,7 +1559,7 @@ func (r *c17Run) lists() []*c17List {
 			}
 			return mapS(res.Attestations, r.gAttestInfo), res.Pagination, nil
 		}})
-	add(&c17List{name: "AttestationsByHash", deps: gData, paged: true, args: iris, expect: attByIRI,
+	add(&c17List{name: "AttestationsByHash", deps: gData, paged: true, args: hashIris, expect: attByIRI,
 		call: func(a string, pr *query.PageRequest) ([]string, *query.PageResponse, error) {
 			h, err := hashOf(a)
 			if err != nil {
@@ -1578,7 +1579,7 @@ func (r *c17Run) lists() []*c17List {
 			}
 			return mapS(res.Resolvers, r.gResolverInfo), res.Pagination, nil
 		}})
-	add(&c17List{name: "ResolversByHash", deps: gData, paged: true, args: iris, expect: resByIRI,
+	add(&c17List{name: "ResolversByHash", deps: gData, paged: true, args: hashIris, expect: resByIRI,
 		call: func(a string, pr *query.PageRequest) ([]string, *query.PageResponse, error) {
 			h, err := hashOf(a)
 			if err != nil {
@@ -1637,6 +1638,22 @@ func firstN(xs []string, n int) []string {
 func splitPair(p string) (string, string) {
 	i := strings.Index(p, pairSep)
 	return p[:i], p[i+1:]
+}
+
+// hashQueryArgs: the by-hash queries take a content hash, and a request whose content hash does not pass the
+// stateless validation of content hashes (a 16-byte digest, a one-letter extension: rows that only a genesis
+// document can contain) is a malformed request, which a handler may refuse. Such IRIs are asked by IRI only.
+func (r *c17Run) hashQueryArgs(iris []string) []string {
+	var out []string
+	for _, a := range iris {
+		h, err := data.ParseIRI(a)
+		if err == nil && h.Validate() != nil {
+			r.m.inc("obs_by_hash_queries_not_asked_for_a_content_hash_failing_stateless_validation")
+			continue
+		}
+		out = append(out, a)
+	}
+	return out
 }
 
 func (r *c17Run) singles() []*c17One {
@@ -1996,6 +2013,7 @@ func (r *c17Run) singles() []*c17One {
 		return kAnchor(x.Iri, h, tsG(x.Timestamp))
 	}
 	iris := r.iriArgs()
+	hashIris := r.hashQueryArgs(iris)
 	add(&c17One{name: "AnchorByIRI", deps: gData, args: iris, expect: expAnchor,
 		call: func(a string) (string, error) {
 			res, err := r.dat.AnchorByIRI(ctx, &data.QueryAnchorByIRIRequest{Iri: a})
@@ -2004,7 +2022,7 @@ func (r *c17Run) singles() []*c17One {
 			}
 			return gAnchor(res.Anchor), nil
 		}})
-	add(&c17One{name: "AnchorByHash", deps: gData, args: iris, expect: expAnchor,
+	add(&c17One{name: "AnchorByHash", deps: gData, args: hashIris, expect: expAnchor,
 		call: func(a string) (string, error) {
 			h, err := data.ParseIRI(a)
 			if err != nil {
